@@ -340,6 +340,26 @@ def rule_mirror(fx, rep):
     rep.obligation(good)
     if not good:
         bad("bishop-pair", f"bishop pair bonus is not applied symmetrically: {found}", bpb)
+    # per-colour arms: a `match player` selecting a rank / a rank-index quantity must select mirror images
+    # (White's value for rank r equals Black's value for rank 7-r, as a count, or is its reflection 7-x, as a position)
+    decided = 0
+    for b2 in fx.fn_bodies():
+        nb = norm(b2.name)
+        if not nb.startswith("engine::eval::") or "::tests::" in nb or " as std::fmt::" in b2.name or "trace" in nb.lower() or "tuner" in nb.lower():
+            continue
+        for (line, ty, ew, ek) in colour_arm_pairs(fx, b2):
+            vals = [(rank_eval(fx, ew, r), rank_eval(fx, ek, 7 - r)) for r in range(8)]
+            if any(a is None or c is None for a, c in vals):
+                continue  # not a rank-index quantity: not decided here
+            decided += 1
+            n += 1
+            as_count = all(a == c for a, c in vals)
+            as_position = all(a == 7 - c for a, c in vals)
+            good = as_count or as_position
+            rep.obligation(good)
+            rep.sample({"rule": "C16-MIRROR", "colour_arms": nb, "line": line, "white": show(ew)[:60], "black": show(ek)[:60], "mirror": "count" if as_count else ("position" if as_position else None)})
+            if not good:
+                bad(f"colour-arms/{nb.split('::')[-1]}", f"`{b2.name}` line {line} selects `{show(ew)[:60]}` for White and `{show(ek)[:60]}` for Black; for rank r vs 7-r these give {vals[:4]}.., neither equal (a count) nor reflected (a position): the two colours are not treated as mirror images", b2)
     # from_white_eval: White as is, Black negated
     fw = fx.one("Eval::from_white_eval")
     n += 1
@@ -355,6 +375,91 @@ def rule_mirror(fx, rep):
     if not good:
         bad("from_white_eval", f"from_white_eval negates for {res}; expected only for Black", fw)
     rep.rule("C16-MIRROR", n, 15, ok, "mirrored table construction and per-colour term combination")
+
+
+def colour_arm_pairs(fx, b):
+    """[(line, local_ty, expr_white, expr_black)] for every `match player { White => X, Black => Y }` in body b whose two arms
+    assign the same local (straight-line arms that meet again)."""
+    out = []
+    pv = {v["name"]: v["discr"] for v in fx.adt("player::Player")["variants"]}
+    for i in sorted(b.live_blocks()):
+        t = b.blocks[i]["term"]
+        if t["k"] != "switch" or t["dty"] == "bool" or len(t["targets"]) != 2:
+            continue
+        dst = [st for st in b.blocks[i]["stmts"] if st["k"] == "assign" and st["rv"]["k"] == "discr" and st["rv"].get("of", "").endswith("player::Player")]
+        if not dst or "pl" not in t["discr"] or t["discr"]["pl"]["l"] != dst[-1]["lhs"]["l"]:
+            continue
+        arms = {}
+        for v, tg in t["targets"]:
+            asg = {}
+            cur, steps = tg, 0
+            while cur is not None and steps < 4:
+                steps += 1
+                for st in b.blocks[cur]["stmts"]:
+                    if st["k"] == "assign" and not st["lhs"].get("p"):
+                        asg[st["lhs"]["l"]] = (cur, st)
+                tt = b.blocks[cur]["term"]
+                if tt["k"] == "call" and not tt["dest"].get("p"):
+                    asg[tt["dest"]["l"]] = (cur, tt)
+                nx = b.succ(cur)
+                cur = nx[0] if len(nx) == 1 and tt["k"] in ("goto", "call", "assert") and len(b.preds()[nx[0]]) == 1 else None
+            arms[v] = asg
+        w, k = arms.get(pv["White"], {}), arms.get(pv["Black"], {})
+        for l in sorted(set(w) & set(k)):
+            def val(rec):
+                bb, st = rec
+                if st["k"] == "assign":
+                    rv = st["rv"]
+                    if rv["k"] == "use":
+                        return b.expr(rv["op"], expand_named=True, at=bb)
+                    if rv["k"] == "agg" and rv.get("agg") == "adt" and not rv["ops"]:
+                        return ("agg", norm(rv["adt"]) + "::" + rv["variant"], ())
+                    if rv["k"] == "binop":
+                        return ("binop", rv["op"], b.expr(rv["a"], expand_named=True, at=bb), b.expr(rv["b"], expand_named=True, at=bb))
+                    if rv["k"] == "cast":
+                        return ("cast", b.expr(rv["op"], expand_named=True, at=bb), rv.get("to"))
+                    return None
+                return ("call", norm(callee_name(st) or "?"), tuple(b.expr(a, expand_named=True, at=bb) for a in st["args"]))
+            ew, ek = val(w[l]), val(k[l])
+            if ew is not None and ek is not None:
+                out.append((t.get("line"), b.local_ty(l), ew, ek))
+    return out
+
+
+def rank_eval(fx, e, r):
+    """numeric value of an expression over one free variable, the rank index of some square (value r); None if anything else occurs"""
+    e = deep_strip(e)
+    if not isinstance(e, tuple) or not e:
+        return None
+    if e[0] == "const" and isinstance(e[1], int):
+        return e[1]
+    if e[0] == "agg" and isinstance(e[1], str) and not e[2] and "::Rank::" in e[1]:
+        d = {v["name"]: v["discr"] for v in fx.adt("square::Rank")["variants"]}
+        return d.get(e[1].split("::")[-1])
+    if e[0] == "constpath":
+        cv = [v for k2, v in fx.consts.items() if norm(k2) == e[1]]
+        return cv[0].get("int") if cv and "int" in cv[0] else None
+    if e[0] == "field" and e[2] == "0" and isinstance(e[1], tuple) and e[1] and e[1][0] == "binop":
+        return rank_eval(fx, e[1], r)
+    if e[0] == "cast":
+        return rank_eval(fx, e[1], r)
+    if e[0] == "binop":
+        a, b2 = rank_eval(fx, e[2], r), rank_eval(fx, e[3], r)
+        if a is None or b2 is None:
+            return None
+        return {"Add": a + b2, "Sub": a - b2, "Mul": a * b2}.get(e[1].replace("WithOverflow", ""))
+    if e[0] == "call" and isinstance(e[1], str):
+        if e[1].endswith("Rank::array_idx") or e[1].endswith("Rank::idx"):
+            inner = deep_strip(e[2][0])
+            c = rank_eval(fx, inner, r) if isinstance(inner, tuple) and inner and inner[0] == "agg" else None
+            if c is not None:
+                return c
+            # the rank of some square: the free variable
+            return r if find_calls(inner, "Square::rank") else None
+        if e[1].endswith("abs_diff") and len(e[2]) == 2:
+            a, b2 = rank_eval(fx, e[2][0], r), rank_eval(fx, e[2][1], r)
+            return abs(a - b2) if a is not None and b2 is not None else None
+    return None
 
 
 def num_eval(e, i):
@@ -490,6 +595,11 @@ PH = "src/engine/eval/phased_eval.rs"
 PS = "src/engine/eval/piece_square_tables.rs"
 PA = "src/engine/eval/params.rs"
 MUTANTS = [
+    {"name": "passed-pawn mask keeps the pawn's own rank for Black (seed C16-2)", "expect": "C16-MIRROR/colour-arms",
+     "edits": [("src/engine/eval/pawn_structure.rs", "    let rank = square.rank();\n    let mut relevant_ranks = Bitboard::FULL;\n\n    let back_rank_idx = match player {\n        Player::White => Rank::R1,\n        Player::Black => Rank::R8,\n    };\n\n    let distance_from_back_rank = back_rank_idx.array_idx().abs_diff(rank.array_idx());\n\n    for _ in 0..=distance_from_back_rank {",
+                "    let rank_idx = square.rank().array_idx();\n    let ranks_to_drop = match player {\n        Player::White => rank_idx + 1,\n        Player::Black => Rank::R8.array_idx() - rank_idx,\n    };\n\n    let mut relevant_ranks = Bitboard::FULL;\n    for _ in 0..ranks_to_drop {")]},
+    {"name": "passed-pawn mask measured from rank 7 for Black", "expect": "C16-MIRROR/colour-arms",
+     "edits": [("src/engine/eval/pawn_structure.rs", "        Player::Black => Rank::R8,\n    };\n\n    let distance_from_back_rank", "        Player::Black => Rank::R7,\n    };\n\n    let distance_from_back_rank")]},
     {"name": "endgame weight from the unclamped phase (original defect)", "expect": "C16-BLEND/endgame-weight",
      "edits": [(PH, "        let endgame_phase_value = PHASE_COUNT_MAX - midgame_phase_value;", "        let endgame_phase_value = PHASE_COUNT_MAX - phase_value;")]},
     {"name": "divisor does not match the weights", "expect": "C16-BLEND/divisor",
